@@ -672,7 +672,9 @@ pub fn finalise(mut protos: Vec<Proto>, refs: &[RefSeq]) -> Stream {
             continue;
         }
         let l = refs[p.rid].seq.len();
-        let span = if p.place == Place::Mapped { shape_ref_span(p.shape) } else { p.ulen.max(1) };
+        // a placed unmapped read occupies its POS only: its bases may run past the reference end (an
+        // unmapped mate placed at the position of a read mapped near the end of the reference)
+        let span = if p.place == Place::Mapped { shape_ref_span(p.shape) } else { 1 };
         let span = span.min(l);
         if p.pos == usize::MAX || p.pos + span - 1 > l {
             p.pos = l - span + 1;
